@@ -443,34 +443,51 @@ def store_ids(ctx):
     from skepticoin.blockstore import BlockStore
     ledger.setup()
     uni = ledger.tx_universe('genesis')
-    paths = [('f',), ('f', 's'), ('f', 's', 'a'), ('f', 's', 'a', 'c'), ('f', 's', 'a', 'c', 'e')]
-    path = os.path.join(os.getcwd(), 'c07-store.db')
-    if os.path.exists(path):
-        os.remove(path)
     import contextlib
-    with contextlib.redirect_stdout(io.StringIO()):
-        st = BlockStore(path)
+    lin = [('f',), ('f', 's'), ('f', 's', 'a'), ('f', 's', 'a', 'c'), ('f', 's', 'a', 'c', 'e')]
+    # competing blocks that carry the SAME transaction ('d' = the transactions of 'a' and of 'c'), written in either order
+    fork1 = [('f',), ('f', 's'), ('f', 's', 'a'), ('f', 's', 'd'), ('f', 's', 'c')]
+    fork2 = [('f',), ('f', 's'), ('f', 's', 'd'), ('f', 's', 'c'), ('f', 's', 'a'), ('f', 's', 'a', 'c')]
     n = 0
-    try:
-        for p in paths:
-            st.add_block_to_buffer(uni.get(p).block)
-        st.flush_blocks_to_disk()
-        st.close()
+    for name, paths, per_block in (('linear', lin, False), ('linear', lin, True), ('fork', fork1, False), ('fork', fork1, True),
+                                   ('fork', fork2, True), ('fork', fork2, False)):
+        path = os.path.join(os.getcwd(), 'c07-store.db')
+        if os.path.exists(path):
+            os.remove(path)
         with contextlib.redirect_stdout(io.StringIO()):
             st = BlockStore(path)
-        for b in st.read_blocks_from_disk():
-            n += 1
-            if b.hash() != enc.sha256d(b.header.serialize()):
-                ctx.violation('store-block-id', "block read from the store has id %s, its header hashes to %s" % (
-                    b.hash().hex()[:16], enc.sha256d(b.header.serialize()).hex()[:16]), {'fam': 3})
-            for t in b.transactions:
+        how = "%s history %s, %s" % (name, ['/'.join(p) for p in paths], 'one flush per block' if per_block else 'one flush')
+        written = {enc.txid(t) for t in uni.root.block.transactions}      # (a fresh store holds the genesis block)
+        try:
+            for p in paths:
+                nd = uni.get(p)
+                if nd is None:
+                    continue
+                written.add(nd.bid)
+                written.update(enc.txid(t) for t in nd.block.transactions)
+                st.add_block_to_buffer(nd.block)
+                if per_block:
+                    st.flush_blocks_to_disk()
+            st.flush_blocks_to_disk()
+            st.close()
+            with contextlib.redirect_stdout(io.StringIO()):
+                st = BlockStore(path)
+            for b in st.read_blocks_from_disk():
                 n += 1
-                if t.hash() != enc.sha256d(t.serialize()):
-                    ctx.violation('store-tx-id', "transaction read from the store has an id that is not the hash of its encoding",
-                                  {'fam': 3})
-        st.close()
-    finally:
-        os.remove(path)
+                if b.hash() != enc.sha256d(b.header.serialize()):
+                    ctx.violation('store-block-id', "block read from the store has id %s, its header hashes to %s (%s)" % (
+                        b.hash().hex()[:16], enc.sha256d(b.header.serialize()).hex()[:16], how), {'fam': 3})
+                for t in b.transactions:
+                    n += 1
+                    if t.hash() != enc.sha256d(t.serialize()):
+                        ctx.violation('store-tx-id', "transaction read from the store has an id that is not the hash of its "
+                                      "encoding (%s)" % how, {'fam': 3})
+                    elif t.hash() not in written:
+                        ctx.violation('store-tx-id', "transaction read from the store has an id nothing written had (%s)" % how,
+                                      {'fam': 3})
+            st.close()
+        finally:
+            os.remove(path)
     return n
 
 
